@@ -16,6 +16,10 @@
  *                                                 process_completed_block() of backend.c on the result (block writer
  *                                                 stubbed): iw = the word it stores in the inode's block list,
  *                                                 fw = the word it stores in the fragment table ('-' = untouched)
+ *   fino <op>...                                  inode.c on a fresh file inode: S<n> sqfs_inode_set_file_size, B<n>
+ *                                                 set_file_block_start, F<i>,<o> set_frag_location, X<n> set_xattr_index,
+ *                                                 e make_extended, b make_basic, P<n> what process_completed_block does
+ *                                                 for a sparse block (make_extended; file_ext.sparse += n)
  *   ids <id>...                                   sqfs_id_table_id_to_index per id, then sqfs_id_table_write
  *   idsrange <n>                                  the same for ids 0..n-1
  *   codec <gzip|xz|lz4|lz4hc|zstd> <outsize> <datahex>   the real backend's do_block (compress), then uncompress
@@ -380,6 +384,40 @@ static void op_blk(void)
 	free(w); free(b); free(d);
 }
 
+static void op_fino(void)
+{
+	sqfs_inode_generic_t *ino = calloc(1, sizeof(*ino));
+	size_t i;
+	int rc = 0;
+	ino->base.type = SQFS_INODE_FILE;
+	for (i = 1; i < ntok && rc == 0; ++i) {
+		const char *t = toks[i];
+		char *end = NULL;
+		unsigned long long v = t[0] && t[1] ? strtoull(t + 1, &end, 10) : 0;
+		switch (t[0]) {
+		case 'S': rc = (!t[1] || *end) ? 1 : sqfs_inode_set_file_size(ino, v); break;
+		case 'B': rc = (!t[1] || *end) ? 1 : sqfs_inode_set_file_block_start(ino, v); break;
+		case 'X': rc = (!t[1] || *end) ? 1 : sqfs_inode_set_xattr_index(ino, (sqfs_u32)v); break;
+		case 'P': if (!t[1] || *end) rc = 1; else { sqfs_inode_make_extended(ino); ino->data.file_ext.sparse += (sqfs_u32)v; } break;
+		case 'F': if (!t[1] || *end != ',' || !end[1]) rc = 1;
+			  else { char *e2; unsigned long long o = strtoull(end + 1, &e2, 10); rc = *e2 ? 1 : sqfs_inode_set_frag_location(ino, (sqfs_u32)v, (sqfs_u32)o); } break;
+		case 'e': rc = t[1] ? 1 : sqfs_inode_make_extended(ino); break;
+		case 'b': rc = t[1] ? 1 : sqfs_inode_make_basic(ino); break;
+		default: rc = 1;
+		}
+	}
+	if (rc) puts(rc == 1 ? "bad-op" : "err");
+	else if (ino->base.type == SQFS_INODE_FILE)
+		printf("basic start=%u size=%u frag=%u,%u\n", ino->data.file.blocks_start, ino->data.file.file_size,
+		       ino->data.file.fragment_index, ino->data.file.fragment_offset);
+	else if (ino->base.type == SQFS_INODE_EXT_FILE)
+		printf("ext start=%llu size=%llu sparse=%llu nlink=%u frag=%u,%u xattr=%u\n", (unsigned long long)ino->data.file_ext.blocks_start,
+		       (unsigned long long)ino->data.file_ext.file_size, (unsigned long long)ino->data.file_ext.sparse, ino->data.file_ext.nlink,
+		       ino->data.file_ext.fragment_idx, ino->data.file_ext.fragment_offset, ino->data.file_ext.xattr_idx);
+	else printf("type %u\n", ino->base.type);
+	free(ino);
+}
+
 static void ids_finish(sqfs_id_table_t *t, int failed_at)
 {
 	sqfs_super_t super;
@@ -451,6 +489,7 @@ int main(void)
 		else if (!strcmp(toks[0], "meta")) op_meta(0);
 		else if (!strcmp(toks[0], "metak")) op_meta(1);
 		else if (!strcmp(toks[0], "blk")) op_blk();
+		else if (!strcmp(toks[0], "fino")) op_fino();
 		else if (!strcmp(toks[0], "ids")) op_ids(0);
 		else if (!strcmp(toks[0], "idsrange") && ntok == 2) op_ids(1);
 		else if (!strcmp(toks[0], "codec")) op_codec();
